@@ -43,6 +43,7 @@ def configs(prop, tier, seed):
         plan = [("T1", vs[0], 3, "exact"), ("T2", vs[1], 2, "exact"), ("T2", vs[0], 2, "exact"), ("T1", vs[1], 2, "decimal")]
         if prop in ("C02", "C07"):
             plan.append(("F1", VARIANTS[(seed + 1) % len(VARIANTS)], 3, "exact"))
+            plan.append(("F1", VARIANTS[(seed + 2) % 6], 2, "splitcarry"))
             plan.append(("T3", VARIANTS[2 + seed % 3], 2, "exact"))
             plan.append(("MC", VARIANTS[(seed + 1) % 2], 3, "exact"))
             plan.append(("T1", VARIANTS[6], 3, "exact"))
@@ -52,6 +53,7 @@ def configs(prop, tier, seed):
             plan.append(("T1", VARIANTS[1 + (seed % 2) * 2], 3, "spreadpath"))
         plan.append(("T1", VARIANTS[(seed + 2) % 6], 3, "dormant"))
         plan.append(("T1", VARIANTS[(seed + 3) % 6], 2, "seeded"))
+        plan.append(("T1", VARIANTS[(seed + 1) % 6], 2, "bigbook"))
     else:
         plan = []
         for v in VARIANTS:
@@ -73,11 +75,15 @@ def configs(prop, tier, seed):
             plan.append(("T1", v, 3, "dormant"))
             plan.append(("T1", v, 3, "seeded"))
         plan.append(("T2", VARIANTS[0], 2, "seeded"))
+        for v in VARIANTS[:3]:
+            plan.append(("T1", v, 3, "bigbook"))
         if prop in ("C02", "C07"):
             for v in VARIANTS[:4]:
                 plan.append(("F1", v, 3, "exact"))
             plan.append(("F2", VARIANTS[1], 3, "exact"))
             plan.append(("F1", VARIANTS[1], 3, "decimal"))
+            plan.append(("F1", VARIANTS[0], 3, "splitcarry"))
+            plan.append(("MC", VARIANTS[1], 3, "splitcarry"))
             for v in (VARIANTS[0], VARIANTS[1], VARIANTS[4]):
                 plan.append(("MC", v, 4, "exact"))
             plan.append(("T2", VARIANTS[6], 3, "exact"))
@@ -99,6 +105,13 @@ def configs(prop, tier, seed):
             spec["alpha"] = "exact"
             spec["prices"] = {"a": [4.0, 0.0, 0.0, 2.0], "b": [1.0, 2.0, 0.0, 1.0]}
             spec["preops"] = [["transact", [], "a", 3.0], ["next"]]
+        if al == "bigbook":
+            # a book of a million: the alphabet's flows, fees and trades are a few millionths of it
+            spec["alpha"] = "exact"
+            spec["capital"] = 1048576.0
+        if al == "splitcarry":
+            spec["alpha"] = "exact"
+            spec["carry"] = "split"
         if al == "seeded":
             spec["alpha"] = "exact"
             spec["seed_before_setup"] = 16.0
